@@ -47,7 +47,12 @@ def resolve_helper(prog, f, call, skip=()):
     fn = call.func
     callee = None
     is_method = False
+    local_closure = False
     if isinstance(fn, ast.Name):
+        # a closure defined in the calling function itself: inlined into the scope it already reads from
+        loc = [g for g in prog.funcs if g.parent is not None and g.parent.key == f.key and g.name == fn.id]
+        if len(loc) == 1 and not loc[0].node.decorator_list and not (loc[0].node.args.vararg or loc[0].node.args.kwarg) and fn.id not in skip:
+            return loc[0], False
         r = prog.resolve(f.mod, fn)
         if r and r[0] == 'func' and r[1].mod is f.mod and r[1].cls is None and r[1].parent is None:
             callee = r[1]
@@ -277,6 +282,12 @@ class Inliner:
         node = self.rewrite_exprs(node, self.depth)
         # statements produced by expression rewriting may again be statement-level helper calls
         node.body = self.block(node.body, 1)
+        # a local closure whose every call was inlined is dead: drop its definition (rules that scan statements would read it twice)
+        for st in list(node.body):
+            if isinstance(st, ast.FunctionDef) and not any(isinstance(n, ast.Name) and n.id == st.name and isinstance(n.ctx, ast.Load)
+                                                           for other in node.body if other is not st for n in ast.walk(other)):
+                if any(k.endswith('.' + st.name) or k.endswith(':' + st.name) or k.split('.')[-1] == st.name for k in self.inlined):
+                    node.body.remove(st)
         ast.fix_missing_locations(node)
         return node
 
